@@ -35,6 +35,7 @@ ASPECT_OWNERS = {
     "orphan-rows": {"C08", "C13", "C10"},
     "expiry-safety": {"C12"},
     "expiry-collateral": {"C12"},
+    "expiry-lost-messages": {"C12", "C01"},
     "expiry-liveness": {"C13"},
     "sweep-error": {"C13", "C10"},
     "timer": {"C13"},
@@ -47,6 +48,8 @@ ASPECT_OWNERS = {
 # aspects whose mismatch cannot corrupt the model's channel state: a check
 # that does not own them counts the mismatch and carries on
 SOFT = {"usage", "current", "blur", "list", "timer"}
+# mismatches of the *stored state* (not of an answer)
+STATE_ASPECTS = {"expiry-lost-messages", "np-life", "mb-life", "msg-rows", "orphan-rows", "expiry-safety", "expiry-liveness", "expiry-collateral", "np-dup"}
 
 
 class Mismatch(Exception):
@@ -111,6 +114,7 @@ class ModelObserver(Observer):
         self.ids_ever = {}
         self.sub_of = {}        # cid -> (app, id)
         self.abandoned = False
+        self.desynced = None
         self.usage = bool(cfg.get("usage"))
         self.blur = cfg.get("blur") if self.usage or True else None
         self.allow_list = cfg.get("allow_list", True)
@@ -120,6 +124,7 @@ class ModelObserver(Observer):
         self.last_tick_t = None
         # evidence / non-triviality counters
         self.ev = {}
+        self.np_gone_with_mailbox = set()
         self.process_tick(world.start_tick, start=True)
 
     # ---------------------------------------------------------------- util
@@ -208,6 +213,7 @@ class ModelObserver(Observer):
         for nk, np in list(self.np.items()):
             if np.app == mb.app and np.mailbox == mb.id:
                 self.retire_np(nk, t, pruned, optional, path="with-mailbox-" + path)
+                self.np_gone_with_mailbox.add(nk)
         self.note("retired_mb_" + path)
 
     # --------------------------------------------------------------- steps
@@ -218,14 +224,29 @@ class ModelObserver(Observer):
             self._on_step(j, op, st, tr_before, gone)
         except Mismatch as m:
             if m.aspect in self.owned:
-                raise Violation("op#%d %s (%s): %s" % (j, _short(op), m.aspect, m.msg))
+                raise Violation("op#%d %s (%s): %s%s" % (j, _short(op), m.aspect, m.msg,
+                                                       " [after an earlier mismatch of a foreign aspect: %s]" % self.desynced if self.desynced else ""))
+            if m.aspect in STATE_ASPECTS and "model inconsistency" not in m.msg:
+                # the stored state left the specification in an aspect another
+                # property owns: keep the specification's state (no adoption),
+                # stop comparing stored state, keep judging answers
+                if not self.desynced:
+                    self.count("desynced_foreign_" + m.aspect)
+                self.desynced = self.desynced or m.aspect
+                return
             self.abandoned = True
             self.count("abandoned_foreign_" + m.aspect)
+        except (KeyError, AttributeError, IndexError, TypeError):
+            if self.desynced:
+                self.abandoned = True
+                self.count("abandoned_after_desync")
+            else:
+                raise
 
     def _on_step(self, j, op, st, tr_before, gone):
         kind = op["op"]
         self.pending_usage = []
-        self.cur_optional_mailboxes = 0
+        self.np_gone_with_mailbox = set()
         if kind == "connect":
             pass
         elif kind == "drop":
@@ -478,7 +499,7 @@ class ModelObserver(Observer):
         for c, f in st.frames:
             if f.get("type") in ("claimed", "message"):
                 self.mm("crowd", "refused side was sent %r" % (f,))
-            if f.get("type") == "error" and mb.id in repr({k: v for k, v in f.items() if k != "orig"}):
+            if f.get("type") == "error" and _contains_value({k: v for k, v in f.items() if k not in ("orig", "type")}, mb.id):
                 self.mm("crowd", "error frame leaks the mailbox id: %r" % (f,))
         # stored messages and first-two side records untouched
         b = [r for r in st.before["messages"] if r[0] == mb.app and r[1] == mb.id]
@@ -811,6 +832,8 @@ class ModelObserver(Observer):
         self.pending_usage = [(r, True, p) for (r, o, p) in self.pending_usage]
 
     def compare_state(self, snap, t, sweep=False):
+        if self.desynced:
+            return
         # duplicates
         seen = set()
         for r in snap["nameplates"]:
@@ -840,6 +863,9 @@ class ModelObserver(Observer):
                 self.mm(asp_np, "nameplate(s) %r should still be live (claimed and not released by %s) but are gone"
                         % (missing, [sorted(s for s, v in self.np[k].sides.items() if v.flag) for k in missing]))
             if extra:
+                if set(extra) & self.np_gone_with_mailbox:
+                    self.mm(asp_mb, "nameplate(s) %r still stored although the mailbox they pointed at was deleted by its last close"
+                            % (sorted(set(extra) & self.np_gone_with_mailbox),))
                 self.mm(asp_np, "nameplate(s) %r are still stored although every claimant released them / their mailbox was deleted" % (extra,))
             self.mm("claimed-id", "nameplate(s) %r point at a different mailbox than their claimants were told" % (diff,))
         model_mb = set(self.mb)
@@ -856,6 +882,8 @@ class ModelObserver(Observer):
         if want != got:
             lost = [m for m in want if m not in got]
             extra = [m for m in got if m not in want]
+            if sweep and lost:
+                self.mm("expiry-lost-messages", "the sweep removed messages of mailboxes that survive it: %r" % (lost[:4],))
             self.mm("msg-rows", "stored messages differ from what was added and not yet deleted: lost=%r unexpected=%r" % (lost[:4], extra[:4]))
         # side rows belong to live parents ("deleted together")
         np_ids = set(r[0] for r in snap["nameplates"])
@@ -917,6 +945,16 @@ class ModelObserver(Observer):
 
     def finish(self):
         pass
+
+
+def _contains_value(obj, needle):
+    if isinstance(obj, str):
+        return obj == needle or (len(needle) >= 6 and needle in obj)
+    if isinstance(obj, dict):
+        return any(_contains_value(v, needle) for v in obj.values())
+    if isinstance(obj, (list, tuple)):
+        return any(_contains_value(v, needle) for v in obj)
+    return False
 
 
 def _new_rows(before, after):
